@@ -3,6 +3,7 @@ package main
 // Rules added after the second round of seeded changes (DESIGN §11).
 
 import (
+	"fmt"
 	"go/constant"
 	"go/token"
 	"sort"
@@ -26,16 +27,14 @@ func ruleForwardedVariables(r *Run) {
 		if !ok {
 			continue
 		}
-		// value taken from the request's variables?
-		var lk *ssa.Lookup
-		if ex, ok := mu.Value.(*ssa.Extract); ok {
-			lk, _ = ex.Tuple.(*ssa.Lookup)
-		} else if l, ok := mu.Value.(*ssa.Lookup); ok {
-			lk = l
-		}
+		// value taken from the request's variables — directly, or through a call/conversion
+		lk, via := variableSource(mu.Value, 0)
 		if lk == nil || !dependsOnField(lk.X, "Variables") {
 			continue
 		}
+		r.Check(via == "", "R13k.same", fnName(fn), "client variable forwarded unchanged", r.P.pos(mu.Pos()),
+			"the value stored into the sub-request's variables is the very value looked up in the client's variables",
+			"the client's variable value passes through "+via+" on its way into the sub-request: the value is no longer the object the request parser produced — an upload (recognised downstream by its Go type *requests.Upload) nested in it is turned into plain data and the file is never sent; numbers and nulls can change representation")
 		n++
 		good := false
 		if lk.CommaOk {
@@ -57,6 +56,52 @@ func ruleForwardedVariables(r *Run) {
 			"every name of the step's variable list is forwarded, present or not (absent ones as null): the sub-request's variables map then holds more than the stitched id, the `len(variables) == 1` gate of de-duplication never passes and the same entity is fetched once per list occurrence; absent variables also override downstream defaults with null")
 	}
 	r.AtLeast(rule, "forwarded client variables", n, 1)
+}
+
+// variableSource traces a stored value back to a map lookup; via names the first call or
+// conversion it passed through ("" when it is the looked-up value itself).
+func variableSource(v ssa.Value, depth int) (*ssa.Lookup, string) {
+	if depth > 4 {
+		return nil, ""
+	}
+	switch x := v.(type) {
+	case *ssa.Lookup:
+		return x, ""
+	case *ssa.Extract:
+		if lk, ok := x.Tuple.(*ssa.Lookup); ok {
+			return lk, ""
+		}
+		if c, ok := x.Tuple.(*ssa.Call); ok {
+			return variableSource(c, depth+1)
+		}
+	case *ssa.Call:
+		for _, a := range x.Call.Args {
+			if lk, _ := variableSource(a, depth+1); lk != nil {
+				return lk, "a call of " + calleeDesc(&x.Call)
+			}
+		}
+	case *ssa.MakeInterface:
+		return variableSource(x.X, depth+1)
+	case *ssa.ChangeType:
+		return variableSource(x.X, depth+1)
+	case *ssa.TypeAssert:
+		if lk, via := variableSource(x.X, depth+1); lk != nil {
+			if via == "" {
+				via = "a type assertion"
+			}
+			return lk, via
+		}
+	case *ssa.Phi:
+		for _, e := range x.Edges {
+			if lk, via := variableSource(e, depth+1); lk != nil {
+				if via == "" {
+					via = "a conditional rewrite"
+				}
+				return lk, via
+			}
+		}
+	}
+	return nil, ""
 }
 
 // ruleSingleLoopNesting (R12a.nest): DepthExecutor.Execute is called in exactly one loop (the
@@ -119,6 +164,24 @@ func ruleGatewayState(r *Run) {
 					if f, ok := c.Args[0].(*ssa.FieldAddr); ok && namedOf(f.X.Type()) == modPath+".Gateway" {
 						fa, what = f, "call "+calleeDesc(c)
 					}
+					// an object the Gateway points to, handed as receiver to a method that writes it
+					if ld, ok := c.Args[0].(*ssa.UnOp); ok && ld.Op == token.MUL {
+						if f, ok := ld.X.(*ssa.FieldAddr); ok && namedOf(f.X.Type()) == modPath+".Gateway" {
+							if sc := c.StaticCallee(); sc != nil && writesReceiver(r.P.declared(sc), 0) {
+								fa, what = f, "call "+calleeDesc(c)+" (writes its receiver)"
+							}
+						}
+					}
+				}
+			}
+			if st, ok := ins.(*ssa.Store); ok && fa == nil {
+				// g.x.f = v where x is a pointer field of Gateway
+				if f2, ok := st.Addr.(*ssa.FieldAddr); ok {
+					if ld, ok := f2.X.(*ssa.UnOp); ok && ld.Op == token.MUL {
+						if f, ok := ld.X.(*ssa.FieldAddr); ok && namedOf(f.X.Type()) == modPath+".Gateway" {
+							fa, what = f, "store through"
+						}
+					}
 				}
 			}
 			if fa == nil {
@@ -131,6 +194,48 @@ func ruleGatewayState(r *Run) {
 	if m == 0 {
 		r.OK("R3b", fnName(h), "Gateway state is read-only on the request path", r.P.pos(h.Pos()), "no store, map write or pointer-receiver method call on a field of Gateway in any function reachable from Handler")
 	}
+}
+
+// writesReceiver: the method stores into (a field or element of) its receiver, directly or
+// through another method of the same receiver.
+func writesReceiver(fn *ssa.Function, depth int) bool {
+	if fn == nil || fn.Blocks == nil || len(fn.Params) == 0 || depth > 2 {
+		return false
+	}
+	recv := ssa.Value(fn.Params[0])
+	rootIsRecv := func(a ssa.Value) bool {
+		for i := 0; i < 6; i++ {
+			switch x := a.(type) {
+			case *ssa.FieldAddr:
+				a = x.X
+			case *ssa.IndexAddr:
+				a = x.X
+			default:
+				return a == recv
+			}
+		}
+		return false
+	}
+	for _, ins := range allInstrs(fn) {
+		switch x := ins.(type) {
+		case *ssa.Store:
+			if _, isFA := x.Addr.(*ssa.FieldAddr); isFA && rootIsRecv(x.Addr) {
+				return true
+			}
+		case *ssa.MapUpdate:
+			if ld, ok := x.Map.(*ssa.UnOp); ok && rootIsRecv(ld.X) {
+				return true
+			}
+		case ssa.CallInstruction:
+			c := x.Common()
+			if sc := c.StaticCallee(); sc != nil && len(c.Args) > 0 && c.Args[0] == recv && c.Signature().Recv() != nil && sc != fn {
+				if writesReceiver(sc, depth+1) {
+					return true
+				}
+			}
+		}
+	}
+	return false
 }
 
 // ruleSliceReuse (R3f): the `x[:0]` filter-in-place idiom is applied only to slices the
@@ -354,4 +459,97 @@ func ruleRootDefinitionIdentity(r *Run) {
 	if n == 0 {
 		r.OK(rule, "merger", "root definitions edited in place", "-", "no merger function replaces a root type in Schema.Types (roots are edited in place, so Schema.Query and Schema.Types[\"Query\"] stay one object)")
 	}
+}
+
+// ruleGlobalState (R3h): code reachable from the HTTP handler does not write package-level
+// state of the module: no store to (a field/element of) a package variable, no map write on a
+// map held in one, no Store/LoadOrStore/Delete/Put/Get on a package-level sync.Map or
+// sync.Pool. Such state outlives the request and is shared by concurrent ones: a pooled or
+// memoised object handed to two requests makes one answer depend on the other.
+var globalWriteTable = map[string]tabEntry{}
+
+func ruleGlobalState(r *Run) {
+	const rule = "R3h"
+	h := r.Anchor(rule, "pebbles.(*Gateway).Handler")
+	if h == nil {
+		return
+	}
+	globalRoot := func(a ssa.Value) *ssa.Global {
+		for i := 0; i < 8; i++ {
+			switch x := a.(type) {
+			case *ssa.FieldAddr:
+				a = x.X
+			case *ssa.IndexAddr:
+				a = x.X
+			case *ssa.UnOp:
+				if x.Op != token.MUL {
+					return nil
+				}
+				a = x.X
+			case *ssa.Global:
+				if x.Pkg != nil && (x.Pkg.Pkg.Path() == modPath || strings.HasPrefix(x.Pkg.Pkg.Path(), modPath+"/")) {
+					return x
+				}
+				return nil
+			default:
+				return nil
+			}
+		}
+		return nil
+	}
+	var fns []*ssa.Function
+	// with the context-insensitive edges: the default queryer factory is a closure stored in a
+	// Gateway field and reached through a function-typed option parameter
+	for fn := range r.P.CG.ReachableAll([]*ssa.Function{h}) {
+		fns = append(fns, fn)
+	}
+	sort.Slice(fns, func(i, j int) bool { return fnName(fns[i]) < fnName(fns[j]) })
+	n, nGlobals := 0, 0
+	for _, fn := range fns {
+		for _, ins := range allInstrs(fn) {
+			var g *ssa.Global
+			what := ""
+			switch x := ins.(type) {
+			case *ssa.Store:
+				if g = globalRoot(x.Addr); g != nil {
+					what = "store to"
+				}
+			case *ssa.MapUpdate:
+				if g = globalRoot(x.Map); g != nil {
+					what = "map write on"
+				}
+			case ssa.CallInstruction:
+				c := x.Common()
+				cn := calleeName(c)
+				if len(c.Args) > 0 && (strings.HasPrefix(cn, "(*sync.Map).") || strings.HasPrefix(cn, "(*sync.Pool).")) {
+					if g = globalRoot(c.Args[0]); g != nil {
+						what = "call " + cn + " on"
+					}
+				}
+				if b, ok := c.Value.(*ssa.Builtin); ok && b.Name() == "delete" {
+					if g = globalRoot(c.Args[0]); g != nil {
+						what = "delete on"
+					}
+				}
+			case *ssa.UnOp:
+				if gl, ok := x.X.(*ssa.Global); ok && x.Op == token.MUL && globalRoot(gl) != nil {
+					nGlobals++
+				}
+			}
+			if g == nil {
+				continue
+			}
+			n++
+			construct := what + " package variable " + shortPkg(g.Pkg.Pkg.Path()) + "." + g.Name()
+			if reason, ok := useTable(r, globalWriteTable, fnName(fn)+"/"+construct); ok {
+				r.Tabled(rule, fnName(fn), construct, r.P.pos(ins.Pos()), "globalWrite", reason)
+				continue
+			}
+			r.Bad(rule, fnName(fn), construct, r.P.pos(ins.Pos()), "request-handling code writes package-level state, which outlives the request and is shared by concurrent requests: an object memoised or pooled there (a queryer bound to one request's context, a formatter that keeps its operation type, a buffer still referenced by an unsent body) makes one request's outcome depend on another's")
+		}
+	}
+	if n == 0 {
+		r.OK(rule, fnName(h), "package-level state is read-only on the request path", r.P.pos(h.Pos()), fmt.Sprintf("no store, map write, delete or sync.Map/sync.Pool call on a package variable in the %d functions reachable from Handler (%d reads of package variables seen)", len(fns), nGlobals))
+	}
+	r.AtLeast(rule, "functions reachable from Handler", len(fns), 100)
 }
